@@ -247,3 +247,20 @@ func c04R10(c *Ctx) {
 func c02R11(c *Ctx) {
 	shareRule(c, "C03.R13", "C02.R11", c03R13, "ready dependency groups are handled before the other ready nodes of a round: a stage input with a required and a `!soft-optional` reference to the same output gets the optional value whenever the required one is there")
 }
+
+// C16: the SDK walks the properties of an object in map order and stops at the first problem. A recovered SDK panic has
+// to become the error result of the check; if it is lost, "the panicking field first" accepts and "the mismatching
+// field first" refuses the same text.
+func c16R8(c *Ctx) {
+	shareRule(c, "C11.R7", "C16.R8", c11R7, "every recovered panic of the SDK's scope / compatibility operations is returned as the error of the check (the deferred recover writes the function's error result): otherwise the verdict on a workflow with two faulty fields depends on which one map iteration reaches first")
+}
+
+// C02: a `!wait-optional` source is waited for wherever the reference stands.
+func c02R12(c *Ctx) {
+	shareRule(c, "C10.R2", "C02.R12", c10R2, "the dependency kind of an optional reference is the constant its tag prescribes, whatever contains the reference: a `!wait-optional` below a one-of alternative that is connected as a plain optional dependency lets the stage get its input before the producer has run, silently without the value")
+}
+
+// C08: the static type check of a workflow uses the types of that workflow.
+func c08R12(c *Ctx) {
+	shareRule(c, "C10.R5", "C08.R12", c10R5, "preparation keeps nothing on the executor or in package-level state: a memo of expression types keyed by the expression text makes the stage-input check of a later workflow use a type computed for another workflow's data model, and an ill-typed workflow is accepted")
+}
